@@ -195,6 +195,7 @@ def run(P: Program, R: Report, tier: str) -> None:
                                 f"the painted label is recorded with the single group {strip(px)} (a loop variable left over from the scan of the "
                                 "change list): undo clears only that group and the array is not restored", via="interp-args")
         R.floor("R07.4", "paint-update sequences", n_seq, 6)
+        release_before_claim(R, f, results, "R07.10")
         R.floor("R07.8", "(node, pixels) pairs recorded by the paint update", len(pair_seen), 3)
         # ---- R07.5 deletion guard
         for g in ast.walk(f.node):
@@ -260,3 +261,23 @@ def run(P: Program, R: Report, tier: str) -> None:
         if isinstance(t, ast.Tuple) and t.elts:
             R.check(f"self.get_time({node_p})" in norm(t.elts[0]), "R07.7", gp, r, "get_pixels prepends the node's time index",
                     norm(t.elts[0])[:80], via="provenance")
+
+
+def release_before_claim(R: Report, f, results, rule: str) -> None:
+    """The previous labels give their pixels up BEFORE the painted label takes them.  Giving up = writing 0 at those
+    pixels; done after the claim it wipes the painted label there (the array is no longer as painted, and the painted
+    node was measured on pixels it does not keep)."""
+    n_ord = 0
+    for pr in results:
+        if pr.kind == "raise":
+            continue
+        for seq in pr.sequences(lambda e: e.xdepth == 0 and e.kind == "construct"):
+            claim = [i for i, e in enumerate(seq) if e.args.get("node") == "$new_value"]
+            release = [i for i, e in enumerate(seq) if str(e.args.get("node", "")).startswith("$updated_pixels[")]
+            if claim and release:
+                n_ord += 1
+                R.check(max(release) < min(claim), rule, f, seq[min(claim)].where(),
+                        "the sub-edits of the previous labels precede the sub-edit of the painted label",
+                        "the painted label is added / grown before an overlapped node gives up its pixels: that node's shrink then writes 0 over "
+                        "freshly painted pixels (and the painted node keeps measurements of pixels it lost)", via="path-order")
+    R.floor(rule, "paths with both a release and a claim", n_ord, 1)
